@@ -69,6 +69,11 @@ def main(repo, outdir):
         dtq = Fraction(m.group(1))
         need(tr, "self.model_ = compile_ekf(symbolic_model=self.symbolic_model, process_noise=self.process_noise, sensor_models=self.sensor_models, "
                  "sensor_noises=self.sensor_noises, calibration_map=self.calibration_map, config=self.config)", "transform")
+        # the data matrix as given: converted without changing its shape; a flat sequence is one column of samples
+        need(tr, "X = force_to_ndarray(X) if len(X.shape) == 1: X = np.reshape(X, (len(X), 1)) n_samples, n_features = X.shape", "transform")
+        fa = ast.unparse(get_source_func(path, "force_to_ndarray"))
+        need(fa, "if mat is None: return mat if isinstance(mat, list): return np.array(mat) if not isinstance(mat, np.ndarray): mat = mat.__array__() "
+                 "assert isinstance(mat, np.ndarray) return mat", "force_to_ndarray")
         need(tr, "state = self.model_.State() covariance = self.model_.Covariance()", "transform")
         need(tr, "for idx in range(X.shape[0]): controls_input, the_rest = (X[idx, :self.model_.control_size], X[idx, self.model_.control_size:]) "
                  "controls_input = self.model_.Control.from_data(controls_input.reshape((self.model_.control_size, 1))) "
